@@ -24,7 +24,7 @@ CHECKS = {
         text="Decides on MIR: (X1) every arithmetic op of the fee predicate discharged by intervals over the full input ranges, None arms of checked "
              "ops return false, in both overflow configurations (thorough); (X2) the returned comparison's operator tree, checked ops read as exact on "
              "their Some paths, equals total >= amount + base + floor(amount*ppm/10^6); (T) field widths; (F) the failure encoder's byte layout per "
-             "variant equals 0x20,26||be32||be32||be16 and the two constant codes; (P) the policy payload is HtlcManagerParams::routing_policy; (G) gates; (P) no field of the params/policy is modified after construction; (W) option wiring; (Q) request fields verbatim; (N) every classified HTLC with a forward amount reaches the gates (C13-N1); (L) without stored state the lifecycle waits the configured timeout itself before its select, so a queued rejection is delivered whenever that timeout is non-zero (C11-T1/T4).",
+             "variant equals 0x20,26||be32||be32||be16 and the two constant codes; (P) the policy payload is HtlcManagerParams::routing_policy; (G) gates; (P) no field of the params/policy is modified after construction; (W) option wiring; (Q) request fields verbatim; (N) every classified HTLC with a forward amount reaches the gates (C13-N1); (E) every lifecycle path answers once and removes its entry; (L) without stored state the lifecycle waits the configured timeout itself before its select, so a queued rejection is delivered whenever that timeout is non-zero (C11-T1/T4).",
         note="Exactness over u64 x u64 x u32 x u32 follows from X1+X2, it is not enumerated. Only cmp(total, sum) / cmp(total-amount, sum) shapes are accepted as normal form.",
         design="5/C12"),
     "C02": dict(
@@ -45,7 +45,7 @@ CHECKS = {
     "C08": dict(
         technique="dominance rules on the lifecycle + per-method write-record extraction from Datastore impls (MIR def-use)",
         text="Decides W1 (pay only through add_payment_attempt==Ok; the impl returns Ok only after its awaited Pending write, which comes first), W2 (Free only "
-             "in mark_failed, guarded, generation-conditional), W3 (Succeeded stores the settling preimage), W4 (fetch mapping), W5 (no deletion, per-hash keys), W6 (the provider clauses C15-V*/C16-D behind `nothing pending or complete`, which is what releases the Free marker), X (one lifecycle per hash; its table entry is removed only by its own final answer).",
+             "in mark_failed, guarded, generation-conditional), W3 (Succeeded stores the settling preimage), W4 (fetch mapping), W5 (no deletion, per-hash keys), W6 (the provider clauses C15-V*/C16-D behind `nothing pending or complete`, which is what releases the Free marker), X (one lifecycle per hash; its table entry is removed only by its own final answer); W2 also requires mark_failed to be handed the lifecycle's own attempt.",
         note="Not decided: every execution prefix as a crash image at the node; overlapping lifecycles.",
         design="5/C08"),
     "C09": dict(
@@ -74,7 +74,7 @@ CHECKS = {
         text="Decides R1 (pay only via the ready arm), R2 (ready only behind fee_sufficient(held sum, amount) and no fail request; single send site), R3 (held "
              "sum discipline: one write, sum+htlc amount, overflow-free, counted<=>held), R4 (budget = held sum saturating-minus amount, read under the lock "
              "after readiness), R5 (amount only for amountless invoices), R6 (provider forwards verbatim, no exemptfee/maxfeepercent/partial), R7 (held until fate known), "
-             "R8 (amount table of the extractor), R9 (an HTLC whose TrampolineInfo, amount included, differs from the set's is rejected before it is counted), R10 (pay reports failure - which releases the counted HTLCs - only once nothing is pending or complete: C16-D, C15-V*), Q (amounts / expiries / declared total are the hook's JSON values: no hand-written field deserialiser), R11 (each lifecycle answers exactly once), and the exactness of the readiness predicate (C12-X1/X2).",
+             "R8 (amount table of the extractor), R9 (an HTLC whose TrampolineInfo, amount included, differs from the set's is rejected before it is counted), R10 (pay reports failure - which releases the counted HTLCs - only once nothing is pending or complete: C16-D, C15-V*), Q (amounts / expiries / declared total are the hook's JSON values: no hand-written field deserialiser), R11 (each lifecycle answers exactly once), R12 (one lifecycle per entry), and the exactness of the readiness predicate (C12-X1/X2).",
         note="Not decided: the inequality for every multiset by enumeration (follows from R2-R4 and C12); HTLC arrivals racing with the select.", design="5/C03"),
     "C04": dict(
         technique="operator-tree matching of the max-delay expression + who-writes rule on the minimum expiry + gate ordering (MIR)",
@@ -112,7 +112,7 @@ CHECKS = {
     "C15": dict(
         technique="dominance/ordering of awaited RPCs + switch-table extraction of tolerated error codes + loop-shape rule (MIR)",
         text="Decides V1 (preimage provenance), V2 (Ok(None) only after the stream of one waitsendpay per PENDING-listed part is exhausted; no skip/break/timeout), V3 (tolerated "
-             "codes exactly 202/203/204/208/209; nothing else continues or becomes Ok), V4 (PENDING listing returns before the COMPLETE query is issued), V5 (filters), V6 (no tokio::time primitive on the wait path, the ClnRpc implementation of listsendpays/waitsendpay included), V7 (the ClnRpc implementation hands the node's error on with its numeric code: never through anyhow / RpcError::General), V8 (every ClnRpc call returns the reply of an RPC made by that call: no cached listing), V9 (one request per call: no re-send), and within V2: `no payment` only where the COMPLETE listing had no preimage.",
+             "codes exactly 202/203/204/208/209; nothing else continues or becomes Ok), V4 (PENDING listing returns before the COMPLETE query is issued), V5 (filters), V6 (no tokio::time primitive on the wait path, the ClnRpc implementation of listsendpays/waitsendpay included), V7 (the ClnRpc implementation hands the node's error on with its numeric code: never through anyhow / RpcError::General), V8 (every ClnRpc call returns the reply of an RPC made by that call: no cached listing), V9 (one request per call: no re-send), V10 (every Ok exit is dominated by the success of both listings), and within V2: `no payment` only where the COMPLETE listing had no preimage.",
         note="Not decided: parts created after the snapshot by a pay still running in the node.", design="5/C15"),
     "C16": dict(
         technique="exit classification of pay() by dominating match arms (status-dispatch table) (MIR)",
@@ -123,13 +123,13 @@ CHECKS = {
         technique="ADT statelessness table + consume-exactly-once rule on decoders + exactly-once send counting + cancel-safety/lock-scope rules on the driver (MIR)",
         text="Decides D1 (codecs have no state), D2 (line decoder: Ok(None) leaves the buffer, Some consumes split_to(offset+2) with a whole-buffer search for two newlines; "
              "JSON layers call the inner decoder once), R1 (per-request task replies exactly once, id = request id, one of result/error; the hand-off to the writer is an awaited send, never try_send), R2 (the raced reader future awaits "
-             "only FramedRead::next; handlers behind spawn), R3 (one FramedRead for handshake and driver loop, never taken apart), T (request ids are carried as arbitrary JSON values), R4 (the builder's rpcmethods / hooks / subscriptions maps are each moved into their dispatch table exactly once), W (all output through the single guarded FramedWrite, awaited under the guard, not raced; frame = text+2 newlines; "
+             "only FramedRead::next; handlers behind spawn), R3 (one FramedRead for handshake and driver loop, never taken apart), T (request ids are carried as arbitrary JSON values), R5 (an unsubscribed notification topic is not an error), R4 (the builder's rpcmethods / hooks / subscriptions maps are each moved into their dispatch table exactly once), W (all output through the single guarded FramedWrite, awaited under the guard, not raced; frame = text+2 newlines; "
              "no other stdout writes), P (panic discipline on codec/driver/logging).",
         note="Not decided: tokio_util Framed* internals; the node's framing.", design="5/C17"),
     "C19": dict(
         technique="def-use provenance from option constants to parameter sinks through checked conversions + registered/read set comparison + dominance of the init reply (MIR)",
         text="Decides W (each sink is cp.option(expected option) via `?`/checked TryInto to the declared width/from_secs/Not only), R (registered superset of read), O (start only when policy "
-             "delta > safety delta, after all conversions), C (retry_for saturating at u16::MAX, forwarded; cltv_delta reaches the max-delay formula), D (one policy aggregate), I (params and policy are never modified after construction), J (the framework stores integer option values as the JSON number's as_i64(), and takes an option's default only where lightningd sent no value).",
+             "delta > safety delta, after all conversions), C (retry_for saturating at u16::MAX, forwarded; cltv_delta reaches the max-delay formula), D (one policy aggregate), I (params and policy are never modified after construction), J (the framework stores integer option values as the JSON number's as_i64(), and takes an option's default only where lightningd sent no value), T (the configured MPP timeout is the value slept on).",
         note="Not decided: CLN's parsing of option strings; handle_init's as_i64().unwrap() (pre-init, outside handler scope).", design="5/C19"),
     "C20": dict(
         technique="who-writes rule through the height guard + dominating comparison + loop-exit reachability on the poll loop (MIR)",
